@@ -141,13 +141,9 @@ func vfS(v uint64) int64 {
 
 func vfRef(name string, w uint32, x *[32]uint64, pc uint64, mem uint64) vfStepOut {
 	rd, rs1, rs2 := w>>7&31, w>>15&31, w>>20&31
-	a, b := x[rs1], x[rs2]
-	if rs1 == 0 {
-		a = 0
-	}
-	if rs2 == 0 {
-		b = 0
-	}
+	// x0 reads as zero (branch-free, so the executor does not fork on the register numbers)
+	a := x[rs1] & -vfB2U(rs1 != 0)
+	b := x[rs2] & -vfB2U(rs2 != 0)
 	_ = rd
 	immI := vfSext(uint64(w>>20), 12)
 	immS := vfSext(uint64(w>>25<<5|w>>7&31), 12)
@@ -366,8 +362,8 @@ func VfH_step() {
 		vfNote("rv64-only")
 		return
 	}
-	w := vfU32("inst")
-	vfAssume(w&in.mask == in.value)
+	// free operand bits symbolic, opcode/funct bits constant (so the decoder's table scan is decided by known bits)
+	w := vfU32("inst")&^in.mask | in.value
 	cpu := NewCPU()
 	var x0 [32]uint64
 	for i := 0; i < 32; i++ {
@@ -414,12 +410,11 @@ func VfH_step() {
 	if ref.wrRd {
 		exp[rd] = ref.rdVal
 	}
-	var diff uint64 // branch-free comparison of x1..x31
-	for i := 1; i < 32; i++ {
-		diff |= uint64(cpu.RegX[i]) ^ exp[i]
-	}
-	okRegs := diff == 0
-	vfObserve("rd", uint64(cpu.RegX[rd]))
+	// every register x1..x31: k is a symbolic register number, so one query covers all of them
+	k := vfU8("k") & 31
+	vfAssume(k != 0)
+	vfObserve("xk", uint64(cpu.RegX[k]))
+	okRegs := uint64(cpu.RegX[k]) == exp[k]
 	vfAssert(okRegs, "step/int-registers")
 	vfAssert(uint64(cpu.PC) == ref.pc, "step/pc")
 	if ref.load {
